@@ -119,25 +119,39 @@ func checkAPI(c Case, o *vf.Obs) error {
 	}
 	feasible, best := truth(n, c.Constrs)
 	classify(c, o, feasible, best)
-	// maxsat.New iterates a map to build the cost function: repeat the call
-	for rep := 0; rep < 3; rep++ {
-		var cs []maxsat.Constr
-		for _, mc := range c.Constrs {
-			lits := make([]maxsat.Lit, len(mc.Lits))
-			for i, l := range mc.Lits {
-				if l > 0 {
-					lits[i] = maxsat.Var(name(l))
-				} else {
-					lits[i] = maxsat.Not(name(-l))
-				}
+	// The constraints are built once, their coefficient slices carved out of one array (with spare
+	// capacity behind each, as a caller using an arena would have), and the same values are given to
+	// maxsat.New three times (it iterates a map to build the cost function, so outcomes may differ):
+	// the library must neither depend on nor modify the caller's data.
+	var cs []maxsat.Constr
+	var arena []int
+	for _, mc := range c.Constrs {
+		arena = append(arena, mc.Coeffs...)
+	}
+	arena = append(arena, 0, 0, 0)
+	off := 0
+	for _, mc := range c.Constrs {
+		lits := make([]maxsat.Lit, len(mc.Lits))
+		for i, l := range mc.Lits {
+			if l > 0 {
+				lits[i] = maxsat.Var(name(l))
+			} else {
+				lits[i] = maxsat.Not(name(-l))
 			}
-			var co []int
-			if mc.Coeffs != nil {
-				co = append([]int{}, mc.Coeffs...)
-			}
-			cs = append(cs, maxsat.Constr{Lits: lits, Coeffs: co, AtLeast: mc.AtLeast, Weight: mc.Weight})
 		}
+		var co []int
+		if mc.Coeffs != nil {
+			co = arena[off : off+len(mc.Coeffs)]
+			off += len(mc.Coeffs)
+		}
+		cs = append(cs, maxsat.Constr{Lits: lits, Coeffs: co, AtLeast: mc.AtLeast, Weight: mc.Weight})
+	}
+	arenaBefore := append([]int{}, arena...)
+	for rep := 0; rep < 3; rep++ {
 		model, cost := maxsat.New(cs...).Solve()
+		if fmt.Sprint(arena) != fmt.Sprint(arenaBefore) {
+			return fmt.Errorf("rep %d: maxsat.New/Solve modified the caller's coefficient slices: %v -> %v", rep, arenaBefore, arena)
+		}
 		if !feasible {
 			if model != nil {
 				return fmt.Errorf("rep %d: hard constraints are unsatisfiable but a model (cost %d) was returned", rep, cost)
@@ -350,7 +364,7 @@ func min(a, b int) int {
 func init() {
 	vf.Register(
 		vf.Sub[Case]{Name: "api", Quick: 8000, Thorough: 100000, Gen: genAPI, Check: checkAPI, Floor: 0.25,
-			Rule: "maxsat.New(...).Solve(): 1..10 constraints over <=6 named variables, hard/soft split, weights 1..9; clauses, cardinality constraints (Coeffs nil, degree -1..len+1) and PB constraints with positive coefficients (degree 0..sum+1); each instance built and solved 3 times (map-ordered cost function); oracle = brute force; non-trivial = >=1 hard constraint and >=1 soft constraint violated at the optimum"},
+			Rule: "maxsat.New(...).Solve(): 1..10 constraints over <=6 named variables, hard/soft split, weights 1..9; clauses, cardinality constraints (Coeffs nil, degree -1..len+1) and PB constraints with positive coefficients (degree 0..sum+1); the constraint values (coefficient slices carved out of one array) are given to maxsat.New 3 times (map-ordered cost function) and must stay untouched; oracle = brute force; non-trivial = >=1 hard constraint and >=1 soft constraint violated at the optimum"},
 		vf.Sub[Case]{Name: "wcnf", Quick: 8000, Thorough: 100000, Gen: genWCNF, Check: checkWCNF, Floor: 0.18, Journal: true,
 			Rule: "ParseWCNF of a generated text (declared variables >= highest used, with/without top weight, soft weights < top, empty clauses, duplicate literals), Optimal(nil) and Optimal(chan) each on a fresh solver; oracle = brute force over the declared variables; non-trivial as above"},
 	)
